@@ -84,7 +84,7 @@ def rank(M):
     return int((s > 1e-8 * s[0]).sum()) if s[0] > 0 else 0
 
 
-def evaluate(terms, levels, encs, seed, ordering, cluster_by, reps0=2, prime=False, output="numpy", shuffle_index=False):
+def evaluate(terms, levels, encs, seed, ordering, cluster_by, reps0=2, prime=False, output="numpy", shuffle_index=False, scales=()):
     """Returns (ok, details)."""
     from formulaic import Formula
 
@@ -92,6 +92,11 @@ def evaluate(terms, levels, encs, seed, ordering, cluster_by, reps0=2, prime=Fal
     used_cats = [v for v in used if v in CATS]
     exprs = {v: enc_expr(v, encs.get(v), levels.get(v, 1)) for v in used}
     tstr = [("1" if t == ["1"] else ":".join(exprs[v] for v in t)) for t in terms]
+    # non-zero numeric literal scalings (leading or trailing) change neither rank nor span
+    for i_, val, trailing in scales:
+        j_ = i_ % len(tstr)
+        if tstr[j_] != "1" and not tstr[j_][:1].isdigit() and not tstr[j_].rsplit(":", 1)[-1][:1].isdigit():
+            tstr[j_] = f"{tstr[j_]}:{val}" if trailing else f"{val}:{tstr[j_]}"
     f = Formula(tstr, _ordering=ordering)
     if prime:
         # a preceding call in the same process on data where the kinds are swapped (categorical variables numeric and
@@ -141,7 +146,9 @@ def check_case(case) -> Outcome:
     out.label("ordering:" + case["ordering"], "cluster:" + str(case["cluster_by"]), "terms:%d" % len(terms))
     if any(levels.get(v, 2) == 1 for t in terms for v in t if v in CATS):
         out.label("one-level-factor")
-    extra = dict(prime=bool(case.get("prime")), output=case.get("output", "numpy"), shuffle_index=bool(case.get("shuffle_index")))
+    extra = dict(prime=bool(case.get("prime")), output=case.get("output", "numpy"), shuffle_index=bool(case.get("shuffle_index")), scales=[tuple(x) for x in case.get("scales", [])])
+    if extra["scales"]:
+        out.label("literal-scales")
     if extra["prime"]:
         out.label("primed")
     out.label("out:" + extra["output"])
@@ -184,6 +191,7 @@ def gen():
             "prime": draw(st.booleans()),
             "output": draw(st.sampled_from(["numpy", "numpy", "pandas", "sparse"])),
             "shuffle_index": draw(st.booleans()),
+            "scales": draw(st.lists(st.tuples(st.integers(0, 5), st.sampled_from(["2", "3", "0.5", "2.5"]), st.booleans()), max_size=2)),
         }
 
     return strat()
